@@ -77,10 +77,10 @@ contract(T + ".heartbeat", "C09", raises=[], ghost_exit=KEEP,
 contract(T + ".check_timeouts", "C09", raises=[], callbacks=CB, options=OPT, ghost_exit=KEEP,
          ensures={
              "legal-transition": "same_or(old(self)._phase, self._phase, old(self)._phase == LifecyclePhase.ACTIVE and self._phase == LifecyclePhase.SENESCENT)",
-             "lifetime-forces-senescence": "implies(old(self)._phase == LifecyclePhase.ACTIVE and self.max_lifetime is not None and self.max_lifetime > 0 "
+             "lifetime-forces-senescence": "implies(old(self)._phase == LifecyclePhase.ACTIVE and self.max_lifetime is not None and self.max_lifetime.total_seconds() > 0 "
                                            "and old(self)._started_at is not None and clock_first() - old(self)._started_at >= self.max_lifetime, "
                                            "self._phase == LifecyclePhase.SENESCENT and result is False)",
-             "idle-forces-senescence": "implies(old(self)._phase == LifecyclePhase.ACTIVE and self.idle_timeout is not None and self.idle_timeout > 0 "
+             "idle-forces-senescence": "implies(old(self)._phase == LifecyclePhase.ACTIVE and self.idle_timeout is not None and self.idle_timeout.total_seconds() > 0 "
                                        "and old(self)._last_activity is not None and clock_first() - old(self)._last_activity >= self.idle_timeout, "
                                        "self._phase == LifecyclePhase.SENESCENT and result is False)",
              "length-unchanged": "self._telomere_length == old(self)._telomere_length",
